@@ -34,7 +34,8 @@ def DETERMINISM_REPLAY(case):
     return case[0] != "thr"  # the thread engine verifies schedule replay itself
 
 
-# "chains" unit: deep hand-offs (ids with up to 8 level components, up to 3 hops)
+# "chains" unit: deep hand-offs (ids with up to 8 level components, up to 3 hops) and wide
+# ones (reserved positions 9..102, i.e. multi-digit level components)
 
 
 RULE = (
@@ -111,6 +112,14 @@ def _chains(maxdepth):
             for st in reversed(styles):
                 node = ["a", {"style": st} if st else {}, [node, ["m", {"api": 1}]]]
             yield [["a", {}, [node]]]
+    # wide: ids whose level components have several digits (position >= 10, >= 100), also below a hop
+    for k in (8, 9, 10, 11, 99, 100, 101):
+        if k > 11 and maxdepth < 8 and k != 100:
+            continue
+        for st in (6, 7):
+            pad = [["m", {}] for _ in range(k)]
+            yield [["a", {}, pad + [["a", {"style": st}, [["m", {}]]], ["m", {}]]]]
+            yield [["a", {}, pad + [["a", {"style": st}, pad[:10] + [["a", {"style": 6}, [["m", {}]]]]]]]]
 
 
 def cases(unit, tier):
